@@ -143,7 +143,7 @@ def bundle(chk, binary):
             if time.time() - os.path.getmtime(old) > 6 * 3600:
                 os.remove(old)
         t0 = time.time()
-        n = 1500 if thorough else 300
+        n = 1500 if thorough else 200
         from concurrent.futures import ThreadPoolExecutor
         cfgs = configs(chk.tier)
 
@@ -221,6 +221,9 @@ def run_property(chk, prop, want, other):
     """Common driver. `want`: prefixes of harness findings that are violations
     of this property; `other`: prefixes that belong to the sibling property."""
     ok, out = vlib.standard_proof_stage(chk, prop, THEOREMS[prop])
+    chk.coverage["checker_cmd"] = ("make -j16 Properties/%s.vo (coqc 8.16.1, after regenerating Gen/MutexTbl.v from mutexes.go); "
+                                   "coqc on generated cases files (Eval vm_compute in mutex_codes cases)" % prop) + \
+        ("; coqchk -silent -o -Q . Sessions Sessions.Properties.%s" % prop if chk.tier == "thorough" else "")
     if ok and chk.tier == "thorough":
         with vlib.lock("coq"):
             try:
